@@ -25,6 +25,9 @@ import (
 
 const password = "l00pb4ck-PW"
 
+// a protocol-1 style entry (host bits exponent modulus): OpenSSH skips it, x/crypto's parser rejects it
+const junkLine = "legacy.example.com 1024 35 1380980930892389080980980980912038"
+
 type cell struct {
 	tr     string // standard | system-real | system-standin
 	strict bool
@@ -127,6 +130,10 @@ func runCell(w *sched.W, c cell) {
 		_ = os.WriteFile(khFile, []byte(srv.KnownHostsLine(otherPub)+"\n"), 0o600)
 	case "empty":
 		_ = os.WriteFile(khFile, nil, 0o600)
+	case "junk":
+		_ = os.WriteFile(khFile, []byte(junkLine+"\n"), 0o600)
+	case "other+junk":
+		_ = os.WriteFile(khFile, []byte(srv.KnownHostsLine(otherPub)+"\n"+junkLine+"\n"), 0o600)
 	}
 	if c.kh != "none" {
 		opts = append(opts, options.WithSSHKnownHostsFile(khFile))
@@ -302,7 +309,7 @@ func scenarios(tier string) []sched.Scenario {
 	var out []sched.Scenario
 	for _, tr := range []string{"standard", "system-real", "system-standin"} {
 		for _, strict := range []bool{true, false} {
-			for _, kh := range []string{"has", "other", "empty", "none"} {
+			for _, kh := range []string{"has", "other", "empty", "none", "junk", "other+junk"} {
 				tr, strict, kh := tr, strict, kh
 				out = append(out, sched.Scenario{Name: fmt.Sprintf("%s/strict=%v/kh=%s", tr, strict, kh), Run: func(w *sched.W) {
 					for _, auth := range []string{"password", "key", "both"} {
@@ -326,14 +333,84 @@ func scenarios(tier string) []sched.Scenario {
 			}
 		}
 	}
+	for _, tr := range []string{"standard", "system-real"} {
+		tr := tr
+		out = append(out, sched.Scenario{Name: "rewrite/" + tr, Run: func(w *sched.W) { runRewrite(w, tr) }})
+	}
 	return out
+}
+
+// runRewrite: one known-hosts path whose content changes between connections of one process (key rotation,
+// revocation): every connection is judged against the content at the time it is made.
+func runRewrite(w *sched.W, tr string) {
+	dir, err := os.MkdirTemp("", "c14rw")
+	if err != nil {
+		w.Violate("c14:harness", err.Error(), tr)
+		return
+	}
+	defer os.RemoveAll(dir)
+	_, otherPub, _ := loop.NewKeyPair(dir, "other")
+	sd := &loop.ServeDevice{}
+	srv, err := loop.NewSSHServer(password, nil, func(kind string, ch io.ReadWriteCloser) {
+		sd.Run(cm.StdCLI("privilege-exec", false), ch)
+	})
+	if err != nil {
+		w.Violate("c14:harness", err.Error(), tr)
+		return
+	}
+	defer srv.Close()
+	khFile := filepath.Join(dir, "known_hosts")
+	good := srv.KnownHostsLine(srv.HostKey.PublicKey()) + "\n"
+	other := srv.KnownHostsLine(otherPub) + "\n"
+	steps := []struct {
+		name, content string
+		want          bool
+	}{{"has", good, true}, {"other", other, false}, {"empty", "", false}, {"has-again", good, true}, {"other-again", other, false}}
+	hist := ""
+	for _, st := range steps {
+		hist += "/" + st.name
+		cse := "tr=" + tr + " history=" + hist
+		w.Case(cse, cse)
+		_ = os.WriteFile(khFile, []byte(st.content), 0o600)
+		ttype := "standard"
+		if tr == "system-real" {
+			ttype = "system"
+		}
+		d, err := generic.NewDriver("127.0.0.1", options.WithPort(srv.Port), options.WithTransportType(ttype), options.WithAuthUsername("admin"), options.WithAuthPassword(password),
+			options.WithSSHKnownHostsFile(khFile), options.WithTimeoutOps(20*time.Second), options.WithTimeoutSocket(10*time.Second))
+		if err != nil {
+			w.Violate("c14:new-driver", err.Error(), cse)
+			return
+		}
+		done := make(chan error, 1)
+		go func() {
+			err := d.Open()
+			if err == nil {
+				_ = d.Close()
+			}
+			done <- err
+		}()
+		var openErr error
+		select {
+		case openErr = <-done:
+		case <-time.After(60 * time.Second):
+			w.Violate("c14:hang", cse+": open did not finish in 60s", cse)
+			return
+		}
+		if st.want && openErr != nil {
+			w.Violate("c14:rewrite-should-connect:"+tr, fmt.Sprintf("%s: the file now has the server key but: %v", cse, openErr), cse)
+		}
+		if !st.want && openErr == nil {
+			w.Violate("c14:rewrite-connected-despite-host-key:"+tr, fmt.Sprintf("%s: connection established although the file no longer has the server key", cse), cse)
+		}
+	}
 }
 
 func TestCheck(t *testing.T) {
 	sched.Main(t, sched.Check{
 		ID:    "C14",
 		Level: "exploration",
-		Rule:  "exhaustive configuration table: transport {standard (x/crypto/ssh), system with the real /usr/bin/ssh, system with a stand-in ssh binary that records its argv} x strict checking {default on, disabled} x known-hosts file {has the server key, has another key for the host, empty, not given} x authentication {password, key, both} x user {set, empty} x ssh config file {none, given} (x port {explicit, default} for the stand-in); every cell is one connection (Open, one command, Close) to an in-process SSH server on loopback with a fresh host key whose auth callbacks record what was offered; distinct = distinct cells",
+		Rule:  "exhaustive configuration table: transport {standard (x/crypto/ssh), system with the real /usr/bin/ssh, system with a stand-in ssh binary that records its argv} x strict checking {default on, disabled} x known-hosts file {has the server key, has another key for the host, empty, not given, only an unparsable line, another key plus an unparsable line} x authentication {password, key, both} x user {set, empty} x ssh config file {none, given} (x port {explicit, default} for the stand-in); every cell is one connection (Open, one command, Close) to an in-process SSH server on loopback with a fresh host key whose auth callbacks record what was offered; plus, per real transport, one known-hosts path rewritten between five connections of the same process (key, other key, empty, key, other key); distinct = distinct cells",
 		Assumptions: []string{
 			"real sockets, crypto/ssh and OpenSSH cannot run under the controlled scheduler: configurations are enumerated, OS schedules are not",
 			"for the system transport the host key decision is OpenSSH's; scrapligo is judged on the argument list it builds and on the end-to-end outcome",
